@@ -35,8 +35,9 @@ POOL = [  # (pattern, matching line per language or None, fields)
     ("{TEXT:w} {NUMBER:n}", "btc 10", ["w", "n"]),
 ]
 OTHER_LINES = ["1 + 2", "10 usd to eur", "5 km to m", "3 foo", "foo", "bar", "12 baz", "2 days", "x = 5", "zip zip 2", "8 foo 2 + 1", "(7 foo) * 2",
-               "5 voucher 10 btc", "7 foo 10 btc", "3 eth 10 btc", "10 btc 5 voucher", "2 btc 3 btc"]
-NAMES = ["r1", "r2", "r3", "dup", "same"]
+               "5 voucher 10 btc", "7 foo 10 btc", "3 eth 10 btc", "10 btc 5 voucher", "2 btc 3 btc", "10% of 200", "5 march 2020", "200 on 10%"]
+# names of built-in rules (config.json keys) are ordinary names for the API: they address registered rules only
+NAMES = ["r1", "r2", "r3", "dup", "same", "number_of", "convert_money", "small_date"]
 
 
 def uw(name, idx):
